@@ -92,7 +92,13 @@ Judge(e) ==
                  /\ \A d \in cl : kids'[d] = post[d].versions /\ extra'[d] = 0
                  /\ (req.op = "Walk" /\ isc) => C01_Walk(g[c], e.walk.from, e.walk.seq, e.walk.term) >>,
         <<"C02", isc => C02_Step(pre[c], post[c], allv, issued, req, resp) >>,
-        <<"C06", isc => C06_Step(g[c], req, resp) >>,
+        \* ... "every payload from one byte up to the size limit": an upload the harness classed as well-formed (it arrives as a
+        \* protocol operation, not as a raw request) from a client the allow-list admits is answered by the protocol - accepted,
+        \* conflict, declined - never turned away
+        <<"C06", isc => ( /\ C06_Step(g[c], req, resp)
+                          /\ ( ( req.op \in {"AddVersion", "AddSnapshot"} /\ req.tok > 0
+                                 /\ ~(HasF(e, "allow") /\ e.allow.on /\ req.c \notin {e.allow.ids[k_] : k_ \in DOMAIN e.allow.ids}) )
+                               => resp.kind \notin {"refused", "panic"} ) ) >>,
         <<"C07", /\ \A d \in cl : C07_State(g2[d], pre[d], post[d])
                  /\ isc => C07_Read(g[c], req, resp)
                  /\ (req.op = "Walk" /\ isc) =>
